@@ -1727,6 +1727,28 @@ pub async fn serve_sync(
     recv_res
 }
 
+/// thin public wrappers around private functions for the verification harness
+#[cfg(feature = "verif-hooks")]
+pub mod verif_exports {
+    use super::*;
+
+    pub fn handle_need(
+        conn: &mut Connection,
+        actor_id: ActorId,
+        need: SyncNeedV1,
+        sender: &Sender<SyncMessage>,
+    ) -> eyre::Result<()> {
+        super::handle_need(conn, actor_id, need, sender)
+    }
+
+    pub fn chunk_range(
+        range: RangeInclusive<CrsqlDbVersion>,
+        chunk_size: usize,
+    ) -> Vec<RangeInclusive<CrsqlDbVersion>> {
+        super::chunk_range(range, chunk_size).collect()
+    }
+}
+
 #[cfg(test)]
 mod tests {
     use crate::api::public::api_v1_transactions;
